@@ -9,6 +9,8 @@ exit 0: property held on everything explored (possibly KNOWN-FINDING lines)
 exit 1: violation (VIOLATION property=<id> replay=<path>)
 exit 2: tooling failure / inconclusive
 """
+import sys as _sys
+_sys.set_int_max_str_digits(0)      # exact rationals with thousands of digits are ordinary data here
 import argparse, json, os, random, re, shutil, subprocess, sys, time, glob, hashlib
 
 VERIF = os.path.dirname(os.path.dirname(os.path.abspath(__file__)))
@@ -101,7 +103,7 @@ class Ctx:
         return res
 
     # ------------------------------------------------------------------ conformance
-    def conform(self, scen_text, tag, variant="plain", crash_props=None, call_timeout=20, chunk=4000, env=None, spec="Trace", inject=None, par=NCPU, files=None, one_per_process=False, post=None, driver="qsx"):
+    def conform(self, scen_text, tag, variant="plain", crash_props=None, call_timeout=60, chunk=4000, env=None, spec="Trace", inject=None, par=NCPU, files=None, one_per_process=False, post=None, driver="qsx"):
         """run scenarios (text with 'scenario <id>' blocks) on the driver, validate, collect verdicts.
         The scenario blocks are split into chunks that are executed and validated in parallel."""
         from concurrent.futures import ThreadPoolExecutor
